@@ -8,7 +8,7 @@
    iter_index t it = number of items before position it (= distance from begin).
    All statements hold for every 1 <= maxCapacity <= 255, every capacityStep, blockCount, search strategy. *)
 From Coq Require Import ZArith List.
-From C02 Require Import BTreeModel BTreeParams BTreeBase SplitSeg IndexTable BTreeSearch BTreeIter BTreeAdd BTreeRemove BTreeCtx BTreeRemove2 BTreeTrack BTreeRemove3 BTreeRange BTreeTop BTreeHist BTreeRemoveTop BTreeRangeTop BTreeHist2 BTreeMerge BTreeFast BTreeFast2 BTreeInsRange BTreeHist3 NodeOps NodeScript BTreeDecide BTreeSplitGen GenPrimsC02.
+From C02 Require Import BTreeModel BTreeParams BTreeBase SplitSeg IndexTable BTreeSearch BTreeIter BTreeAdd BTreeRemove BTreeCtx BTreeRemove2 BTreeTrack BTreeRemove3 BTreeRange BTreeTop BTreeHist BTreeRemoveTop BTreeRangeTop BTreeHist2 BTreeMerge BTreeFast BTreeFast2 BTreeInsRange BTreeHist3 NodeOps NodeScript BTreeDecide BTreeSplitGen GenPrimsC02 Gen_TreeFacts BTreeFastDecide.
 From MomoCommon Require Import GenPrelude.
 Import ListNotations.
 Local Open Scope Z_scope.
@@ -597,6 +597,48 @@ Theorem C02_hand_split_is_segment_replay :
     sep = nth s ks 0%Z.
 Proof. exact hand_split_is_segment_replay. Qed.
 Print Assumptions C02_hand_split_is_segment_replay.
+
+(* ===== growth round 3: the code where the two C02 defects lived (fast-merge choice of MergeTo, root collapse of pvRebalance) =====
+   Gen_TreeFacts.v is read off the clang AST of TreeSet.h on every run (the pvMergeFast if-chain of MergeTo(TreeSet&) with its conditions
+   and argument order; which items pvIsOrdered(set, set) compares; the statements of the root-collapse loop of pvRebalance and the
+   pointer the climbing loop dereferences); Gen_Ordered.v is the cxx2coq translation of pvIsOrdered(iter, iter). *)
+
+(* the real fast-merge chain, interpreted on the two content lists, IS the hand model's decision (BTreeModel.merge_to) *)
+Theorem C02_merge_fast_choice_is_generated :
+  forall (multi : bool) (sl dl : list Z),
+    fast_choice multi sl dl =
+      if key_ordered multi (last dl 0%Z) (hd 0%Z sl) then Some (SDst, SThis)
+      else if (last sl 0 <? hd 0 dl)%Z then Some (SThis, SDst) else None.
+Proof. exact fast_choice_is_model. Qed.
+Print Assumptions C02_merge_fast_choice_is_generated.
+
+(* ... and whenever it concatenates pvMergeFast(tree1, tree2), tree1 ++ tree2 IS the stable merge of the source into the destination
+   (destination items stay before equivalent source items): fails when commit 103bce4 is reverted *)
+Theorem C02_merge_fast_choice_keeps_destination_first :
+  forall (maxCap : nat) (multi : bool), (1 <= maxCap <= 255)%nat -> forall sl dl : list Z,
+    Sorted.StronglySorted (R multi) sl -> Sorted.StronglySorted (R multi) dl -> sl <> [] -> dl <> [] ->
+    match fast_choice multi sl dl with
+    | Some (a, b) => spec_merge multi sl dl = ([], pick sl dl a ++ pick sl dl b)
+    | None => True
+    end.
+Proof. exact fast_choice_sound. Qed.
+Print Assumptions C02_merge_fast_choice_keeps_destination_first.
+
+(* one iteration of the real root-collapse loop on ANY pointer structure: exactly the old root is destroyed,
+   the new root is its first child, `node` follows the root when it was the old root, and the pointer whose GetParent() the climbing
+   loop reads next is not a destroyed node: fails when commit c72d55b is reverted *)
+Theorem C02_rebalance_collapse_never_reads_a_destroyed_node :
+  forall (ptr : Type) (child0 parent : ptr -> ptr)
+         (ptr_eqb : ptr -> ptr -> bool), (forall a b, ptr_eqb a b = true <-> a = b) ->
+  forall s : cstate ptr,
+    let s' := fold_left (exec ptr child0 parent ptr_eqb) collapse_body s in
+    ~ In (c_node ptr s) (c_dead ptr s) -> ~ In (child0 (c_root ptr s)) (c_dead ptr s) -> child0 (c_root ptr s) <> c_root ptr s ->
+    c_dead ptr s' = c_root ptr s :: c_dead ptr s /\ c_root ptr s' = child0 (c_root ptr s) /\
+    c_node ptr s' = (if ptr_eqb (c_node ptr s) (c_root ptr s) then child0 (c_root ptr s) else c_node ptr s) /\
+    ~ In (c_root ptr s') (c_dead ptr s') /\
+    match climb_reads with EParent e => ~ In (evalp ptr child0 parent s' e) (c_dead ptr s') | _ => False end.
+Proof. exact collapse_iteration_safe. Qed.
+Print Assumptions C02_rebalance_collapse_never_reads_a_destroyed_node.
 
 (* non-vacuity: a concrete reachable state (maxCapacity 2, ten insertions with duplicates) has height 2 *)
 Theorem C02_nonvacuous_example :
